@@ -36,9 +36,16 @@ def program_strategy(draw, max_calls=25):
                                   "seed": st.lists(st.integers(-9, 9), min_size=1, max_size=5)})
     calls = draw(st.lists(call, min_size=1, max_size=max_calls))
     # a file without the optional Root link is a valid geoh5 file too (reader rebuilds the root in memory)
+    via_open = draw(st.integers(0, 3)) == 0
+    if via_open:
+        # constructive: the first call renames the drillhole of the drillhole group (who=-2: the extras are appended
+        # as group, hole, log), an assignment that is only staged by the group
+        calls = [{"call": draw(st.sampled_from(["set_name", "set_flag"])), "who": -2, "to": 0, "seed": [1]}] + calls
     return {"build": build, "ops": calls, "drop_root": draw(st.integers(0, 3)) == 0,
             # a drillhole group with one hole and one depth log (concatenated storage) is added to the file
-            "with_dh": draw(st.booleans())}
+            "with_dh": draw(st.booleans()) or via_open,
+            # the read-only session is opened on a Workspace object that was constructed writable and closed
+            "ro_via_open": via_open}
 
 
 class C10(Check):
@@ -110,8 +117,17 @@ class C10(Check):
         sha0 = file_sha(path)
         ro = tw = other = None
         try:
+            via_open = self.via_open = bool(program.get("ro_via_open"))
             try:
-                ro = Workspace(path, mode="r")
+                if via_open:
+                    ro = Workspace(path)
+                    ro.close()
+                    sha0 = file_sha(path)  # (closing the writable session may have re-saved the file)
+                    shutil.copy(path, twin)
+                    ro.open(mode="r")
+                    res.label("read-only-through-open(mode=r)")
+                else:
+                    ro = Workspace(path, mode="r")
             except Exception as exc:
                 res.fail(f"C10/readonly-open-raises/open//{type(exc).__name__}", f"Workspace(path, mode='r') raised {type(exc).__name__}: {exc}"[:400])
                 return res
@@ -155,7 +171,7 @@ class C10(Check):
                         return res
                 else:
                     try:
-                        ro.open()
+                        ro.open(mode="r") if via_open else ro.open()
                     except Exception as exc:
                         res.fail(f"C10/reopen-raises/{name}//{type(exc).__name__}", f"step {step}: open() after {call}: {exc}"[:300])
                         return res
@@ -204,8 +220,9 @@ class C10(Check):
             return found
 
         try:
+            explicit_r = getattr(self, "via_open", False) and not writable  # this object's own default mode is r+
             if not ws._geoh5 and name not in ("fetch_active_closed", "close_open"):
-                ws.open()
+                ws.open(mode="r") if explicit_r else ws.open()
             if name == "snap":
                 apisnap(ws)
             elif name == "lazy":
@@ -333,22 +350,27 @@ class C10(Check):
                 e.parent = g
             elif name == "close_open":
                 ws.close()
-                ws.open()
+                ws.open(mode="r") if explicit_r else ws.open()
+            elif name == "rw_detour" and getattr(self, "via_open", False):
+                return "skip"
             elif name == "rw_detour":
                 # an EXPLICIT request for a writable session (the user's right), closed again without any edit; the
                 # workspace was built with mode 'r': its next plain open() has to be read-only again
-                ws.close()
-                if seed[0] % 2:
+                if seed[0] % 3 != 2:
+                    ws.close()  # (seed % 3 == 2: the writable block is asked for while the read-only session is open)
+                if seed[0] % 3 == 1:
                     ws.open(mode="r+")
                     ws.close()
                 else:
                     with fetch_active_workspace(ws, mode="r+"):
                         pass
-                    if ws._geoh5:
+                    if ws._geoh5 and seed[0] % 3 != 2:
                         ws.close()
             elif name == "fetch_active":
                 with fetch_active_workspace(ws, "r") as w:
                     len(w.objects)
+            elif name == "fetch_active_closed" and explicit_r:
+                return "skip"  # (a closed object built writable opens writable by default: the user's own choice)
             elif name == "fetch_active_closed":
                 ws.close()
                 with fetch_active_workspace(ws) as w:
